@@ -9,6 +9,7 @@ from .rules import closures as RC
 from .rules import potentials as RP
 from .rules import generic as RG
 from .rules import domain as RD
+from .rules import matrixarray as RM
 
 PROPS = {}
 
@@ -79,6 +80,25 @@ prop('C08',
      'exactly the compensating-error class to which the round-trip test is blind.',
      'the O(dr) error bound against the continuous transform and its decrease under refinement (numerical analysis; '
      'not a shape of the code).')
+
+
+def _r13_arith(ctx):
+    return RM.rule_arithmetic(ctx)
+
+
+prop('C13',
+     [('R00.dyn', RG.rule_no_dynamic), ('R13.1', RM.rule_members), ('R13.2', RM.rule_space_guard),
+      ('R13.5', _r13_arith), ('R13.6', RM.rule_dot_invert), ('R13.9', RM.rule_items),
+      ('R13.i', RM.rule_iterpairs), ('R13.I', RM.rule_identity)],
+     'Static analysis of pyPRISM/core/MatrixArray.py: every operator member is abstractly interpreted on a heap with '
+     'array identity for each operand kind (MatrixArray, scalar, ndarray): the result term must be the elementwise '
+     'operation (einsum literal parsed to the batch matrix product for dot, linalg.inv for invert); out-of-place '
+     'results must be new objects with fresh data and no write to either operand, in-place members must write only '
+     'self.data and return self; in-place/out-of-place siblings must denote the same term; the space guard is '
+     'evaluated on all 9 space pairs and must refuse exactly Real x Fourier before any write; the real '
+     '__setitem__/__getitem__ are interpreted for a==b and a!=b (mirrored store, view getter, KeyError->ValueError at '
+     'all four look-ups); iterpairs predicate truth table; IdentityMatrixArray construction.',
+     'numerical conditioning of linalg.inv (A.dot(A.invert()) == I only to rounding); numpy broadcasting shape errors.')
 
 
 def run(pid, tier, repo, seed=0, replay=None):
